@@ -19,7 +19,7 @@ META = dict(
           "are the very same terms afterwards (only best_window_size may change, and only in fast-mode gamma); and for copy, merge, sampler and "
           "shuffling-tool outputs: adding a unit with a new label, removing a unit or adding an annotator on one side leaves the other side's snapshot unchanged.",
     trusted="z3; snapshot compares annotators, units (start, end, label), categories, bounds, window size and the dissimilarity's parameters - state outside these (none exists in the classes today) would escape it",
-    bounds=dict(quick="continua (2,1) / (1,1) with symbolic coordinates; samplers: <= 1 unit per annotator per draw; CST: 2-unit reference, 1-2 generated annotators",
+    bounds=dict(quick="(+ both samplers on a reference without any label) continua (2,1) / (1,1) with symbolic coordinates; samplers: <= 1 unit per annotator per draw; CST: 2-unit reference, 1-2 generated annotators",
                 thorough="+ (2,2) continua, 3 annotators"),
     outside="mutation through private attributes other than the ones a user can reach with add / remove / add_annotator / merge(in_place)",
     stubs=["cvxpy = contract stub", "np.random = nondeterministic RNG stub", "ThreadPoolExecutor = deferred executor", "alignment methods replaced by spies inside compute_gamma (their own non-interference is checked directly)"],
@@ -41,6 +41,9 @@ def configs(tier):
     out.append(dict(key="compute_gamma,exact,shuffle-sampler", kind="gamma", mode="exact", sampler="shuffle", cost=300))
     out.append(dict(key="sampler-statistical,independence", kind="sampler", sampler="stat", cost=1000, split=32))
     out.append(dict(key="sampler-shuffle,independence", kind="sampler", sampler="shuffle", cost=1000, split=32))
+    # a reference without any label: whether the sampler accepts or refuses it, the reference is left as it was
+    for smp in ("stat", "shuffle"):
+        out.append(dict(key=f"sampler-{smp},unlabelled-reference", kind="sampler", sampler=smp, unlabelled=True, cost=300, split=8))
     for flag in ("none", "cat_shuffle", "false_neg"):
         out.append(dict(key=f"cst,{flag}", kind="cst", flag=flag, cost=100))
     out.append(dict(key="copy-merge-getitem,independence", kind="derive", cost=50))
@@ -259,7 +262,31 @@ def harness(cfg, ns):
         o += mutate_and_compare(ns, ctx, smp, c, "sample drawn during compute_gamma", rz)
         return o
 
+    def h_sampler_unlabelled(ctx):
+        c, info, rz = base(ctx, (1, 1), labels="none")
+        rng = stubs.RNG(ctx, max_draws=30)
+        rng.assume_nonzero_weight = (cfg["sampler"] == "stat")
+        ns.np.random = rng
+        ns.np.std_calls = []
+        s = mk_sampler(cfg["sampler"], ctx, rng)
+        s0 = snap(c)
+        try:
+            s.init_sampling(c)
+            accepted = True
+        except Exception:       # noqa: BLE001 - refusing an unlabelled reference is allowed; modifying it is not
+            accepted = False
+        o = [Obl("init_sampling on an unlabelled reference (accepted or refused): reference unchanged", snap_eq(s0, snap(c)), rz)]
+        if accepted:
+            try:
+                s.sample_from_continuum
+            except Exception:   # noqa: BLE001
+                pass
+            o.append(Obl("sample_from_continuum on an unlabelled reference: reference unchanged", snap_eq(s0, snap(c)), rz))
+        return o
+
     def h_sampler(ctx):
+        if cfg.get("unlabelled"):
+            return h_sampler_unlabelled(ctx)
         c, info, rz = base(ctx, (1, 1))
         rng = stubs.RNG(ctx, max_draws=30)
         rng.assume_nonzero_weight = (cfg["sampler"] == "stat")
@@ -404,6 +431,14 @@ def replay(case):
                 mutate(smp)
                 if S(c) != s0:
                     bad.append("mutating a sample changed the input continuum")
+            elif cfg.get("unlabelled"):
+                try:
+                    sampler.init_sampling(c)
+                    sampler.sample_from_continuum
+                except Exception:       # noqa: BLE001 - refusal is allowed
+                    pass
+                if S(c) != s0:
+                    bad.append(f"initialising / drawing from the sampler on an unlabelled reference modified it: categories {list(c._categories)}")
             else:
                 sampler.init_sampling(c)
                 smp, smp2 = sampler.sample_from_continuum, sampler.sample_from_continuum
